@@ -54,6 +54,13 @@ def c11(prop, tier, t0):
                          "reference acceptor/valuation written from the statement; all 128 numbers rendered and parsed back. "
                          "distinct_nontrivial = distinct accepted strings (case-folded).",
                       {"build_s": round(bt, 1)})
+    # the same conversions called by two (thorough: three) configuration readers at once, first use included (Engine B)
+    sm, scov = engb_run(prop, tier, "c20s", 2 if tier == "quick" else 3, select=lambda n: n.startswith("notes:"))
+    m["violations"].extend(sm["violations"])
+    m["exhaustive"] = m["exhaustive"] and sm["exhaustive"]
+    cov["concurrent_reader_executions"] = scov["executions"]
+    cov["rule"] += (" Plus (Engine B, instrumented event.go under the controlled scheduler) two/three threads converting names concurrently from the first use on: every schedule up to the "
+                    "preemption bound, each result equal to the sequential one, no happens-before race on package-level state.")
     return vlib.finish(prop, tier, "exploration", m, cov, [
         "strings longer than the stated bounds are not enumerated",
         "the spelling '-0' for octave 0 is treated as don't-care (accepting it as octave 0 or rejecting it are both fine)",
@@ -233,14 +240,14 @@ def c09(prop, tier, t0):
     cov = generic_cov(m, "inputs: mutation closure of the 5 shipped device configurations and of a synthetic one using every analog type and optional field "
                          "(per line: delete / duplicate / truncate-before; per key=value and per inline-table field: 22 ill-typed literals incl. dates, times, arrays, tables; "
                          "dotted/quoted/unknown keys; every byte-prefix; all pairs of line deletions of the synthetic file), all token sequences of length <=5 (thorough 6) over a 16-token TOML alphabet, "
-                         "all byte strings of length <=2 and length 3-4 over 12 bytes -> config.ParseData under recover + 120 s watchdog; the same closure of hidi.toml + a 5-field presence/value matrix -> "
+                         "all byte strings of length <=2 and length 3-4 over 12 bytes -> config.ParseData under recover + 30 s watchdog; every content of <=2 bytes and a fixed 1-in-61 stride of the enumeration additionally written to a *.toml file of a complete configuration tree and read through the real LoadDeviceConfigs (differential oracle: returns, no panic, no load error, holds a configuration exactly when ParseData accepts the content); the same closure of hidi.toml + a 5-field presence/value matrix -> "
                          "the real LoadHIDIConfig. distinct_nontrivial = distinct outcomes (accepted input / normalised error message / panic message).",
                       {"hidi_toml_inputs": len(names), "build_s": round(bt, 1)})
     cov["evaluations"] += len(names)
     # collapse duplicates of one panic kind for reporting
     return vlib.finish(prop, tier, "exploration", m, cov, [
         "'all byte strings up to 64 KiB' cannot be enumerated: the bound is the shapes listed in 'rule', one per parsing path visible in the code",
-        "a hang is reported only after a single call stalls for 120 s",
+        "a hang is reported only after a single call stalls for 30 s",
     ], t0)
 
 
@@ -248,9 +255,9 @@ def c09(prop, tier, t0):
 def c10(prop, tier, t0):
     binary, bt = vlib.build("c10")
     m = vlib.merge(sharded(binary, tier, vlib.NCPU))
-    cov = generic_cov(m, "a structured description (collision mode, exit sequence, identifier, defaults, action mapping, colours, 1-3 mappings x 1-2 sub-handlers, key entries by name/hex with notes by number/name and offsets absent/0/15, "
+    cov = generic_cov(m, "a structured description (collision mode, exit sequence, identifier, defaults, action mapping, colours, 1-3 mappings x 1-2 sub-handlers, key entries by name/hex with notes by number/name and offsets absent/0/15, zero-padded decimal numbers, "
                          "every analog type with every optional field present/absent incl. offsets, flip, deadzone_at_center, deadzone sources) is expanded completely per section and pairwise across sections; each description is rendered "
-                         "to TOML and, independently, to the expected configuration; the real ParseData result is compared fact by fact; every single-field invalidation (unknown field/key/note/action/type/mode, out-of-range note, "
+                         "to TOML and, independently, to the expected configuration; the real ParseData result is compared fact by fact; every single-field invalidation (unknown field/key/note/action/type/mode, numbers in octal/hex/binary/underscore/exponent spelling, out-of-range note, "
                          "controller, offset, velocity, channel, missing default mapping) of a spread of bases (thorough: all) must be rejected. distinct_nontrivial = distinct accepted descriptions + distinct rejected invalidation kinds.",
                       {"build_s": round(bt, 1)})
     return vlib.finish(prop, tier, "exploration", m, cov, [
@@ -295,6 +302,13 @@ def c20(prop, tier, t0):
                          "(handlers cannot be opened); result canonicalised (devices sorted by location, members as sets) and compared with: partition of the input, same device iff same location, type = joystick if any member is "
                          "joystick-like else keyboard if any is a standard keyboard else not playable, identical for all permutations (ID compared when all members of a location share it). evaluations = Normalize calls; "
                          "distinct_nontrivial = distinct expected groupings.", {"build_s": round(bt, 1)})
+    # schedules: discovery groups a batch while running devices classify their own handlers (Engine B)
+    sm, scov = engb_run(prop, tier, "c20s", 2 if tier == "quick" else 3, select=lambda n: n.startswith("discovery:"))
+    m["violations"].extend(sm["violations"])
+    m["exhaustive"] = m["exhaustive"] and sm["exhaustive"]
+    cov["concurrent_classification_executions"] = scov["executions"]
+    cov["rule"] += (" Plus (Engine B, instrumented info.go/device.go under the controlled scheduler) Normalize on a batch while 1-2 other threads call HandlerType on handlers of other classes: every schedule up to the "
+                    "preemption bound, every result equal to the sequential one, no happens-before race on package-level state of the package.")
     return vlib.finish(prop, tier, "exploration", m, cov, [
         "which capability set counts as joystick-like / standard keyboard is taken from the code's own HandlerType; the check is about grouping, aggregation and order independence",
         "Device.ID is compared across orders only when all handlers of a location report the same InputID (thorough also runs with per-handler IDs, ID then not compared)",
@@ -377,6 +391,8 @@ ENGB_ASSUME = [
 
 
 ENGB["c15"] = dict(files=["internal/pkg/utils/fan.go", "internal/pkg/midi/process.go"])
+_PUREFILES = ["internal/pkg/input/info.go", "internal/pkg/input/device.go", "internal/pkg/midi/device/config/event.go"]
+ENGB["c20s"] = dict(files=_PUREFILES, access=_PUREFILES)
 ENGB["c19"] = dict(files=["internal/pkg/midi/device/config/monitor.go"], fakes=("fsnotify",))
 _DEVFILES = ["internal/pkg/midi/device/events.go", "internal/pkg/midi/device/device.go", "internal/pkg/midi/device/open_rgb.go"]
 ENGB["c16"] = dict(files=_DEVFILES, access=_DEVFILES, sysroot=True, fakes=("openrgb",))
@@ -471,7 +487,7 @@ def replay(prop, path):
                 return 0 if p.returncode == 0 else 2
         print(p.stdout)
         return 2
-    if det.get("replay") and det["replay"].split(" ", 1)[0] in ("c15", "c16"):
+    if det.get("replay") and det["replay"].split(" ", 1)[0] in ("c15", "c16", "c20s"):
         h = det["replay"].split(" ", 1)[0]
         binary, _ = engb_build(h)
         arg = det["replay"].split("-replay ", 1)[1]
